@@ -27,7 +27,10 @@
 #include "tracked.hpp"
 #include "verif.hpp"
 
+#include <cctype>
 #include <climits>
+#include <fstream>
+#include <map>
 #include <limits>
 #include <sys/mman.h>
 #include <sys/wait.h>
@@ -585,6 +588,37 @@ struct STRE {
         (void)c[a % (size_of(s) + 1)];
         return true;
     }
+    static bool erase_range(int s, u32 a, bool bad)
+    {
+        // erase(first, last): [first, last) must be a range inside [begin(), end()].  Violations: last beyond end() from
+        // every start (also a start > 0 with last beyond end() by no more than start), first beyond end(), first > last.
+        auto x = make(s);
+        ARM_STR(x);
+        auto const n = size_of(s);
+        if (bad) {
+            auto const i   = static_cast<std::size_t>(a % (n + 1));
+            auto const far = static_cast<std::size_t>(Cap + 1 - n); // begin() + Cap + 1 is one past the storage
+            switch ((a / 16) % 4) {
+            case 0:
+            case 1: {
+                auto const j = n + 1 + static_cast<std::size_t>((a / 64) % far);
+                x.erase(x.begin() + static_cast<std::ptrdiff_t>(i), x.begin() + static_cast<std::ptrdiff_t>(j));
+                return true;
+            }
+            case 2: {
+                if (i == 0) { return false; }
+                x.erase(x.begin() + static_cast<std::ptrdiff_t>(i), x.begin() + static_cast<std::ptrdiff_t>((a / 64) % i)); // first > last
+                return true;
+            }
+            default: x.erase(x.end()); return true; // erase(position) with position == end()
+            }
+        }
+        auto const i = static_cast<std::size_t>(a % (n + 1));
+        auto const j = i + static_cast<std::size_t>((a / 16) % (n - i + 1));
+        x.erase(x.begin() + static_cast<std::ptrdiff_t>(i), x.begin() + static_cast<std::ptrdiff_t>(j));
+        if (x.size() > 0) { x.erase(x.begin() + static_cast<std::ptrdiff_t>((a / 64) % x.size())); }
+        return true;
+    }
     static bool replace_pos(int s, u32 a, bool bad)
     {
         // only the violating direction: the documented preconditions (pos < size(), pos + count < size()) also reject
@@ -1083,6 +1117,7 @@ using TCM = lt::TCM;
         Entry{"inplace_string<" tag ">::pop_back", "basic_inplace_string.hpp", 5, &STRE<N>::pop_back},                  \
         Entry{"inplace_string<" tag ">::push_back", "basic_inplace_string.hpp", 5, &STRE<N>::push_back},                \
         Entry{"inplace_string<" tag ">::operator[]", "basic_inplace_string.hpp", 5, &STRE<N>::index},                   \
+        Entry{"inplace_string<" tag ">::erase(first,last)/erase(position)", "basic_inplace_string.hpp", 5, &STRE<N>::erase_range}, \
         Entry{"inplace_string<" tag ">::replace(pos>size)", "basic_inplace_string.hpp", 5, &STRE<N>::replace_pos},      \
         Entry{"inplace_string<" tag ">::replace(pos2>str.size())", "basic_inplace_string.hpp", 5, &STRE<N>::replace_pos2}
 
@@ -1152,6 +1187,35 @@ auto show_case(Case const& k) -> std::string
 
 bool g_replay_verbose = false;
 
+// does file:line (or one of the 10 lines above it: multi-line invocations) hold a contract check?  Unreadable file: yes.
+auto names_a_check(std::string const& file, int line) -> bool
+{
+    static std::map<std::string, std::vector<std::string>> cache;
+    auto it = cache.find(file);
+    if (it == cache.end()) {
+        std::vector<std::string> lines;
+        std::ifstream in(file);
+        std::string l;
+        while (std::getline(in, l)) {
+            for (auto& ch : l) { ch = static_cast<char>(std::tolower(static_cast<unsigned char>(ch))); }
+            lines.push_back(l);
+        }
+        it = cache.emplace(file, std::move(lines)).first;
+    }
+    auto const& lines = it->second;
+    if (lines.empty()) {
+        vf::count("location file unreadable (line not examined)");
+        return true;
+    }
+    for (int l = std::max(1, line - 10); l <= line + 1 && l <= static_cast<int>(lines.size()); ++l) {
+        auto const& t = lines[static_cast<std::size_t>(l - 1)];
+        for (char const* kw : {"precondition", "postcondition", "assert", "contract", "expects", "ensures"}) {
+            if (t.find(kw) != std::string::npos) { return true; }
+        }
+    }
+    return false;
+}
+
 // returns "" / detail; sets *applicable
 auto run_violating(Case const& k, bool* applicable) -> std::string
 {
@@ -1205,6 +1269,12 @@ auto run_violating(Case const& k, bool* applicable) -> std::string
             // another header in a refactoring must not raise an alarm.
             if (!okfile) { vf::count(("site outside the catalogued headers: " + rel).c_str()); }
             if (file.find("/etl/") == std::string::npos) { return "handler fired with a location outside the library: " + file; }
+            // "with the failing location": the location must name the violated check, not the reporting machinery itself,
+            // and the named source line (or the lines of the same statement just above it) must hold a check.
+            if (file.find("/_contracts/") != std::string::npos || file.find("/_cassert/") != std::string::npos) {
+                return "handler fired with the location of the contract machinery itself (" + rel + ":" + std::to_string(g_shm->line) + "), not of the failing check";
+            }
+            if (!names_a_check(file, g_shm->line)) { return "handler fired with a location that holds no check: " + rel + ":" + std::to_string(g_shm->line); }
             if (code == 78) { return "handler fired (" + rel + " " + g_shm->expr + ") but the object had already been modified"; }
             return "";
         }
